@@ -437,6 +437,48 @@ def tables_in_turn(res, rng, dump, unfiltered):
                 return
 
 
+def aliases_within_class(res, ctx, rng):
+    """The filters commute with decoding under a SUPPLIED table as well - one that lists names (the lookups and strings
+    the tool reads for the requested classes among them) under several ids of one class, in different subclasses: a
+    filtered run is the unfiltered run under that table restricted to the filter, whichever id a record uses."""
+    from pykdebugparser.pykdebugparser import PyKdebugParser
+    for _ in range(ctx.pick(6, 120)):
+        dump = gen_dump(rng, True)
+        events2, table = ev.alias_within_class(dump['events'], rng)
+        data2 = wire.v2_file(dump['entries'], 8, gen.events_to_records(events2))
+        case = {'file': data2, 'table': {hex(k): v for k, v in table.items() if k not in ev.bundled_codes()}}
+        try:
+            unfiltered = [key(t) for t in PyKdebugParser().traces(io.BytesIO(data2), table)]
+        except Exception as x:
+            res.violation(f'c13-raises-{core.exc_name(x)}', f'table with names under several ids of one class: {x!r}', case)
+            continue
+        bsd_subs = sorted({(k[1] >> 16) & 0xffff for k in unfiltered if (k[1] >> 24) & 0xff == 4})
+        configs = [([4], []), ([4, 3], []), ([3], []), ([7], []), ([4], [0x0701])]
+        configs += [([], [s_]) for s_ in bsd_subs[:3]] + ([([], bsd_subs[:2])] if len(bsd_subs) > 1 else [])
+        for classes, subs in configs:
+            p = PyKdebugParser()
+            p.filter_class, p.filter_subclass = list(classes), list(subs)
+            for rep in (1, 2):
+                try:
+                    got = [key(t) for t in p.traces(io.BytesIO(data2), table)]
+                except Exception as x:
+                    res.violation(f'c13-raises-{core.exc_name(x)}', f'table with names under several ids of one class, classes='
+                                  f'{classes} subclasses={[hex(x_) for x_ in subs]}: {x!r}', case)
+                    break
+                want = [k for k in unfiltered if (k[1] >> 24) & 0xff in classes or (k[1] >> 16) & 0xffff in subs]
+                res.count('requests_under_tables_with_aliases_within_a_class')
+                res.case((data2, tuple(classes), tuple(subs), rep))
+                if got != want:
+                    extra = [g for g in got if g not in want][:2]
+                    missing = [w for w in want if w not in got][:2]
+                    res.violation('c13-filtered-differs' + ('-on-repeat' if rep > 1 else ''),
+                                  f'supplied table listing names under several ids of one class (other subclasses among them), '
+                                  f'classes={classes} subclasses={[hex(x_) for x_ in subs]}, request {rep}: {len(got)} traces, the '
+                                  f'unfiltered run under that table restricted to the filter has {len(want)}; unexpected '
+                                  f'{[(hex(e[1]), e[2]) for e in extra]}, missing {[(hex(m[1]), m[2]) for m in missing]}', case)
+                    break
+
+
 def wide_nesting(res, ctx, rng):
     """Nesting width: while a BSD call is in flight its thread opens thousands of windows of ids the filter does not admit
     (application signposts that never end).  Filtered and unfiltered runs see very different numbers of open windows; the
@@ -536,6 +578,7 @@ def run(ctx):
         prev = dump
     census(res, ctx, rng)
     enclosed_lookups(res, ctx, rng)
+    aliases_within_class(res, ctx, rng)
     wide_nesting(res, ctx, rng)
     if ctx.shard == 0:
         for n in ctx.pick((2600,), (2600, 12000)):
@@ -561,6 +604,7 @@ def run(ctx):
     res.require('wide_nesting_dumps', 4)
     res.require('lookups_enclosed_in_nested_windows', 50)
     res.require('requests_with_tables_in_turn', 50)
+    res.require('requests_under_tables_with_aliases_within_a_class', 50)
     res.require('cli_requests_compared', 20)
     res.require('long_capture_traces_selected', 100)
     return res
